@@ -1,3 +1,4 @@
 SPECIFICATION Spec
-INVARIANTS CleanIdempotent InsideReflexive Emit
+CONSTANT StemTwice = FALSE
+INVARIANTS CleanIdempotent InsideReflexive NestedRootBesideArchive Emit
 CHECK_DEADLOCK FALSE
